@@ -139,6 +139,22 @@ func (g *Gen) verifyFunction(fn *ssa.Function, sp *FuncSpec) *FnCtx {
 			if !fc.modeOK(c) {
 				continue
 			}
+			if c.Expr.Op == "call" && c.Expr.Name == "clean" && len(c.Expr.Args) == 1 {
+				// one obligation per field
+				v := renv.tr(c.Expr.Args[0])
+				var stT types.Type
+				if p, ok := v.T.Underlying().(*types.Pointer); ok {
+					stT = p.Elem()
+				}
+				if stT != nil {
+					for _, part := range renv.cleanParts(v.S, stT) {
+						o := &Oblig{Name: fmt.Sprintf("%s/ensures#%d.%s", sp.Name, c.Ord, part[0]), Kind: "ensures", Tags: c.Tags, goal: sImp(r.guard, part[1]),
+							Text: "after reset, field " + part[0] + " is in its declared clean state", Spec: c}
+						fc.addObligAt(o, r.block, r.seq)
+					}
+					continue
+				}
+			}
 			f := renv.bool(c.Expr)
 			o := &Oblig{Name: fmt.Sprintf("%s/ensures#%d%s", sp.Name, c.Ord, suffix), Kind: "ensures", Tags: c.Tags, goal: sImp(r.guard, f), Text: c.Text, Spec: c}
 			fc.addObligAt(o, r.block, r.seq)
@@ -173,7 +189,7 @@ func (g *Gen) verifyFunction(fn *ssa.Function, sp *FuncSpec) *FnCtx {
 			} else if !decl.All {
 				var missing []string
 				for n := range inf.Names {
-					if !decl.Names[n] && !strings.HasPrefix(n, "L?") && !strings.HasPrefix(n, "FV?") && !fc.isLocalArr(n) {
+					if !decl.has(n) && !strings.HasPrefix(n, "L?") && !strings.HasPrefix(n, "FV?") && !fc.isLocalArr(n) {
 						missing = append(missing, n)
 					}
 				}
@@ -249,8 +265,8 @@ func (fc *FnCtx) addObligAt(o *Oblig, b *ssa.BasicBlock, seq int) {
 	o.block = b
 	o.seq = seq
 	o.Fn = fc.spec.Name
-	if o.Tags == nil {
-		o.Tags = fc.spec.Tags
+	if len(o.Tags) == 0 {
+		o.Tags = fc.spec.allTags()
 	}
 	fc.obligs = append(fc.obligs, o)
 }
@@ -287,7 +303,7 @@ func (fc *FnCtx) frameObligs(fr *Frame, r retInfo, suffix string) {
 	}
 	sort.Strings(names)
 	for _, n := range names {
-		if ms.Names[n] || n == "$top" || fc.isLocalArr(n) || strings.HasPrefix(n, "GV!") {
+		if ms.has(n) || n == "$top" || fc.isLocalArr(n) || strings.HasPrefix(n, "GV!") {
 			continue
 		}
 		a, b := fc.entry.get(n), r.state.get(n)
